@@ -179,6 +179,10 @@ class Interp:
         """python truthiness as a python bool (forks in program mode)"""
         if isinstance(v, VOpt) and isinstance(v.val, VObj):
             v = self.need(v)
+        if isinstance(v, VObj) and "__list__" in v.fields and isinstance(v.cls, ClassInfo) \
+                and not isinstance(v.cls.find_method("__bool__")[1], list) \
+                and not isinstance(v.cls.find_method("__len__")[1], list):
+            return self.branch(truthy(v.fields["__list__"]), "truth")
         if isinstance(v, VObj) and isinstance(v.cls, ClassInfo):
             for dunder in ("__bool__", "__len__"):
                 owner, found = v.cls.find_method(dunder)
